@@ -79,6 +79,12 @@ def run_chunk(mod_name, chunk):
     pin_paths()
     import numpy as np
     np.seterr(all='ignore')
+    always_on = bool(os.environ.get('PVMON_INSTALL'))
+    if always_on:
+        from . import install as _inst
+        _inst.install()
+        _inst.STATE['violations'] = []
+        _inst.STATE['counters'].clear()
     mod = importlib.import_module(mod_name)
     cases = mod.expand(chunk) if hasattr(mod, 'expand') else chunk
     out = {'n': 0, 'held': 0, 'violated': 0, 'inconclusive': 0, 'keys': set(),
@@ -110,7 +116,81 @@ def run_chunk(mod_name, chunk):
             out['samples'].append(rec['sample'])
     out['keys'] = sorted(out['keys'])
     out['cov'] = dict(out['cov'])
+    if always_on:
+        out['always_on'] = _inst.summary()
     return jsonable(out)
+
+
+ALWAYS_ON_PROPS = ('C03', 'C04', 'C10', 'C13', 'C15')
+FEEDERS = ('c01', 'c03', 'c04', 'c05', 'c06', 'c07', 'c08', 'c09', 'c11', 'c12', 'c14', 'c17')
+
+
+def merge_always_on(pid, summ, agg, source):
+    for k, n in summ.get('counters', {}).items():
+        if k.startswith(pid + ':'):
+            agg['cov']['always_on[%s]:%s' % (source, k[len(pid) + 1:])] += n
+    if summ.get('counters', {}).get('monitor_errors'):
+        agg['cov']['always_on[%s]:monitor_errors' % source] += summ['counters']['monitor_errors']
+    for v in summ.get('violations', []):
+        if v.get('property') != pid:
+            continue
+        mech = 'always-on/' + v['mech']
+        agg['violated'] += 1
+        agg['n'] += 1
+        agg['cov']['mech:' + mech] += 1
+        if len(agg['violations']) < 200:
+            agg['violations'].append({'case': {'always_on_source': source}, 'mech': mech, 'msg': v['msg'], 'witness': {'source': source}})
+
+
+def always_on_extras(pid, seed, jobs, agg, harness_problem):
+    """thorough tier of the always-on properties: (1) the quick workloads of the OTHER properties are executed with the
+    monitor layer attached (pvmon.install) and everything the pid-monitors observe there is merged; (2) the repository's
+    own test-suite is run under the monitor layer from a scratch copy outside /repo and /verif."""
+    import shutil
+    import subprocess
+    import tempfile
+    os.environ['PVMON_INSTALL'] = '1'
+    try:
+        with ProcessPoolExecutor(max_workers=jobs) as ex:
+            futs = {}
+            for fm in FEEDERS:
+                if fm == pid.lower():
+                    continue
+                m = importlib.import_module('pvmon.props.' + fm)
+                for ch in m.plan('quick', seed):
+                    futs[ex.submit(run_chunk, 'pvmon.props.' + fm, ch)] = fm
+            for fut in as_completed(futs, timeout=3 * 3600):
+                try:
+                    r = fut.result()
+                except Exception as e:
+                    harness_problem.append('always-on feeder %s: %s: %s' % (futs[fut], type(e).__name__, e))
+                    continue
+                agg['cov']['always_on_feeder_cases'] += r['n']
+                merge_always_on(pid, r.get('always_on', {}), agg, 'workloads')
+    finally:
+        os.environ.pop('PVMON_INSTALL', None)
+    scratch = tempfile.mkdtemp(prefix='pvmon_tests_')
+    try:
+        shutil.copytree('/repo/tests', os.path.join(scratch, 'tests'))
+        for extra in ('pytest.ini',):
+            if os.path.exists(os.path.join('/repo', extra)):
+                shutil.copy(os.path.join('/repo', extra), scratch)
+        outp = os.path.join(scratch, 'pvmon_out.json')
+        env = dict(os.environ, PVMON_OUT=outp, PYFVTOOL_VERIF='1', MPLBACKEND='Agg')
+        r = subprocess.run([sys.executable, '-B', '-m', 'pytest', '-q', '-p', 'no:cacheprovider', '-p', 'pvmon.pytest_plugin', '--timeout=900',
+                            '--continue-on-collection-errors', 'tests'], cwd=scratch, env=env, capture_output=True, text=True, timeout=3600)
+        if os.path.exists(outp):
+            with open(outp) as f:
+                summ = json.load(f)
+            agg['cov']['repo_tests_under_monitors:collected'] += int(summ.get('tests_collected') or 0)
+            agg['cov']['repo_tests_under_monitors:failed'] += int(summ.get('tests_failed') or 0)
+            merge_always_on(pid, summ, agg, 'repo-tests')
+        else:
+            harness_problem.append('repo tests under monitors produced no summary: %s' % r.stdout[-300:])
+    except Exception as e:
+        harness_problem.append('repo tests under monitors: %s: %s' % (type(e).__name__, e))
+    finally:
+        shutil.rmtree(scratch, ignore_errors=True)
 
 
 def load_known():
@@ -186,6 +266,8 @@ def main(argv=None):
             harness_problem.append('run budget exceeded or pool failure: %s: %s' % (type(e).__name__, e))
             for f in futs:
                 f.cancel()
+    if args.tier == 'thorough' and pid in ALWAYS_ON_PROPS and not os.environ.get('PVMON_NO_ALWAYS_ON'):
+        always_on_extras(pid, args.seed, jobs, agg, harness_problem)
     wall = time.time() - t0
 
     # classify violations
